@@ -6,6 +6,7 @@ collection operations are exactly the documented ones.
 import Gkv.Proofs.Machine
 import Gkv.Props.C10
 import Gkv.Gen.Cas
+import Gkv.Proofs.CasLoop
 open Std
 
 namespace Gkv.Props.C12
@@ -62,5 +63,33 @@ theorem cas_compares_what_was_read :
     Gen.Cas.sites.map (·.1) =
       ["Store.Close", "Store.FlushRevert", "Store.RemoveCollection", "Store.SetCollection"] ∧
     ∀ r ∈ Gen.Cas.sites, r.2 = (true, true, true, true, true) := by decide
+
+
+/-! ### why comparing against what was read matters (supplementary: schedules are outside C12's quantifier)
+
+`Model/CasLoop.lean`: any number of threads, each with a list of updates, each update done as
+`read the cell; compute from the snapshot; compare-and-swap against the version that was read;
+retry on failure` — the loop of SetCollection / RemoveCollection — under an arbitrary schedule. -/
+
+/-- for every number of threads, all update lists and every schedule: the cell holds exactly the
+    published updates applied in publication order to the initial value (nothing lost, nothing
+    applied twice), and each thread's published updates followed by its pending ones are its
+    program -/
+theorem no_lost_collection_update {ι α : Type} (apply : ι → α → α) (a : α) (progs : List (List ι))
+    (sched : List Nat) :
+    (Gkv.CasLoop.run false apply (Gkv.CasLoop.init a progs) sched).cell.val =
+      ((Gkv.CasLoop.run false apply (Gkv.CasLoop.init a progs) sched).log.map Prod.snd).foldl
+        (fun a i => apply i a) a ∧
+    ∀ t, ((Gkv.CasLoop.run false apply (Gkv.CasLoop.init a progs) sched).log.filter (fun e => e.1 == t)).map Prod.snd ++
+        (Gkv.CasLoop.run false apply (Gkv.CasLoop.init a progs) sched).pendingOf t = progs[t]?.getD [] :=
+  ⟨Gkv.CasLoop.no_lost_update apply a progs sched,
+   fun t => Gkv.CasLoop.log_is_interleaving apply a progs sched t⟩
+
+/-- comparing against whatever is current at swap time (seeded change C12b) loses an update: two
+    threads, one update each, both read before either publishes -/
+theorem cas_against_current_loses_update :
+    let s := Gkv.CasLoop.run true Gkv.CasLoop.ins (Gkv.CasLoop.init [] Gkv.CasLoop.twoProgs) Gkv.CasLoop.raceSched
+    s.log = [(0, 10), (1, 20)] ∧ s.cell.val = [20] :=
+  ⟨Gkv.CasLoop.buggy_loses_update.1, Gkv.CasLoop.buggy_loses_update.2.2.1⟩
 
 end Gkv.Props.C12
